@@ -13,29 +13,6 @@ import (
 	"verifharness/monitor"
 )
 
-func stripUnknown(m protoreflect.Message, depth int) {
-	m.SetUnknown(nil)
-	if depth > 8 {
-		return
-	}
-	m.Range(func(fd protoreflect.FieldDescriptor, v protoreflect.Value) bool {
-		switch {
-		case fd.IsMap() && fd.MapValue().Kind() == protoreflect.MessageKind:
-			v.Map().Range(func(_ protoreflect.MapKey, mv protoreflect.Value) bool {
-				stripUnknown(mv.Message(), depth+1)
-				return true
-			})
-		case fd.IsList() && fd.Kind() == protoreflect.MessageKind:
-			for i := 0; i < v.List().Len(); i++ {
-				stripUnknown(v.List().Get(i).Message(), depth+1)
-			}
-		case !fd.IsList() && !fd.IsMap() && fd.Kind() == protoreflect.MessageKind:
-			stripUnknown(v.Message(), depth+1)
-		}
-		return true
-	})
-}
-
 // shrinking is expensive; the same (flavour, variant, failure) is shrunk only a bounded number of times per
 // process, later occurrences are counted under the signature already derived
 var (
@@ -137,10 +114,9 @@ func c06Check(cfg *config, t target, d *dynamicpb.Message, v *variant, seedKey s
 		}
 		return
 	}
-	want := cloneDyn(ref)
-	stripUnknown(want.ProtoReflect(), 0)
-	gotS := cloneDyn(got)
-	stripUnknown(gotS.ProtoReflect(), 0)
+	// "equal to the one the reference runtime decodes": the unknown fields the two decoders retain are part of the
+	// comparison (Diff compares them per field number; what Marshal does with them afterwards is C07's subject)
+	want, gotS := ref, got
 	if !bridge.Equal(want, gotS) {
 		out.items = bridge.Diff(want.ProtoReflect(), gotS.ProtoReflect())
 		if len(out.items) == 0 {
@@ -190,6 +166,12 @@ func runC0607(cfg *config, res *monitor.Result) {
 		}
 		for i := 0; i < ncase; i++ {
 			cases = append(cases, g.Random(t.md))
+		}
+		// self-recursive types: a chain far deeper than any generated value (the reference limits nesting at 10000)
+		for _, dc := range deepChains(t.md, 120) {
+			tv := g.Random(t.md)
+			tv.Msg, tv.Class, tv.Field = dc, "deep-chain-120", ""
+			cases = append(cases, tv)
 		}
 		for ci, c := range cases {
 			for vi := range variantFamilies {
